@@ -343,7 +343,26 @@ def run_root_vector(pe, acc, case):
             acc.fail('root-vector3', sub, 'root of d0 x^2 + d1 x - d2 with d on (%s,%s,%s): %s' % (l0, l1, l2, bad))
         else:
             acc.ok(('rootv3', l0, l1, l2), True, 'root-vector')
-    acc.sample({'kind': 'root-vector', 'functions': ['d0*x-d1', 'd0*x^2+d1*x-d2'], 'layouts': 'all ordered pairs / triples'})
+    # the smallest vector: one observable in a list / tuple / ndarray, addressed as d[0] by the function
+    a_ = anp()
+    for l0 in lays:
+        c1 = D_LAYOUTS[l0](pe, ('c09v1', l0), 0.45)
+        r1 = compare.to_ref(c1)
+        exp1 = ref.r_propagate(math.atanh(r1['value']), [1.0 / (1.0 - r1['value'] ** 2)], [r1])
+        for cont in ('list', 'tuple', 'ndarray'):
+            sub = dict(case, container=cont, length=1, l0=l0)
+            d = [c1] if cont == 'list' else (c1,) if cont == 'tuple' else np.array([c1], dtype=object)
+            try:
+                res = pe.roots.find_root(d, lambda x, dd: a_.tanh(x) - dd[0], guess=0.3)
+            except Exception as e:
+                acc.fail('root-vector1:raised', sub, 'vector d of length one (%s, %s) raised %s: %s' % (cont, l0, type(e).__name__, e))
+                continue
+            bad = ref.close(exp1, compare.to_ref(res), 1e-8)
+            if bad:
+                acc.fail('root-vector1', sub, 'tanh(x) = d[0] with d of length one (%s, %s): %s' % (cont, l0, bad))
+            else:
+                acc.ok(('rootvec1', l0, cont), True, 'root-vector')
+    acc.sample({'kind': 'root-vector', 'functions': ['d0*x-d1', 'd0*x^2+d1*x-d2', 'tanh(x)-d0'], 'layouts': 'all ordered pairs / triples'})
 
 
 # integrand -> (func(p,x), nparams, param values, F(p,x) antiderivative, dF/dp_i(p,x) list, f(p,x) plain)
@@ -405,7 +424,7 @@ def run_quad(pe, acc, case):
     func, pvals, F, dF, fplain = _integrands()[case['integrand']]
     npar = len(pvals)
     slots = ['p%d' % i for i in range(npar)] + ['a', 'b']
-    orients = [('a<b', (0.2, 1.1)), ('a>b', (1.3, 0.4))] + ([('a<0<b', (-0.7, 0.9)), ('wide', (0.05, 3.0))] if os.environ.get('VERIF_TIER') == 'thorough' else [])
+    orients = [('a<b', (0.2, 1.1)), ('a>b', (1.3, 0.4)), ('a==b', (0.7, 0.7))] + ([('a<0<b', (-0.7, 0.9)), ('wide', (0.05, 3.0))] if os.environ.get('VERIF_TIER') == 'thorough' else [])
     for orient, (av, bv) in orients:
         # call history: an earlier call with plain numbers and scipy options (it returns scipy's tuple early) must leave nothing
         # behind for the calls that follow
@@ -437,6 +456,18 @@ def run_quad(pe, acc, case):
                             b = o
                         else:
                             p[int(s[1])] = o
+                    if orient == 'a==b':
+                        # limits that are different objects with exactly the same central value: the integral vanishes, its
+                        # fluctuations f(b) db - f(a) da do not
+                        if isinstance(a, pe.Obs) and isinstance(b, pe.Obs):
+                            b = b + (a.value - b.value)
+                        elif isinstance(a, pe.Obs):
+                            b = float(a.value)
+                        elif isinstance(b, pe.Obs):
+                            a = float(b.value)
+                        if (a.value if isinstance(a, pe.Obs) else a) != (b.value if isinstance(b, pe.Obs) else b):
+                            acc.skip('equal central values not representable')
+                            continue
                     pv = [x.value if isinstance(x, pe.Obs) else x for x in p]
                     avv = a.value if isinstance(a, pe.Obs) else a
                     bvv = b.value if isinstance(b, pe.Obs) else b
